@@ -1,19 +1,15 @@
 SPECIFICATION Spec
-CONSTANT Cfg <- MCCfg32q2
-CONSTANT MaxDem = 2
+CONSTANT Cfg <- MCCfg32
+CONSTANT MaxDem = 3
 INVARIANT Protocol
 INVARIANT MaskSound
 INVARIANT MaskShape
 INVARIANT CodeResolutionAdmissible
-INVARIANT FeasibleAlways
-INVARIANT CompletionIsFullSolution
 INVARIANT NoNegativeCapacity
-INVARIANT DenseTelescopes
-INVARIANT DenseEqSparse
-INVARIANT SparseZeroUntilEnd
 INVARIANT Total
 INVARIANT WithinHorizon
 INVARIANT EarlyLastIsCompletion
 INVARIANT CompletionEnds
 PROPERTY IllegalGoesToDepot
+VIEW RulesView
 CHECK_DEADLOCK FALSE
